@@ -298,11 +298,17 @@ func Execute(h *History) error {
 				ctlFile = filepath.Join(ctl, "failpre")
 			case "status":
 				args = []string{t, "--status"}
-			case "list":
+			case "list": // --list-all and --list (every task has a description) alternate: the specification says "a listing"
 				args = []string{"--list-all"}
+				if (i+len(h.Steps))%2 == 1 {
+					args = []string{"--list"}
+				}
 				yes = false
 			case "listjson":
 				args = []string{"--list-all", "--json"}
+				if (i+len(h.Steps))%2 == 1 {
+					args = []string{"--list", "--json"}
+				}
 				yes = false
 			case "summary":
 				args = []string{t, "--summary"}
